@@ -61,7 +61,9 @@ func histWrite(_ distsys.ArchetypeInterface, _ []tla.Value, c, v tla.Value) (tla
 }
 
 // mergerArchetype builds the hand-written environment process `name` (label l1) of gcounter/shopcart:
-//   with (i1 \in Nodes; i2 \in {x \in Nodes : state[x] # state[i1]}) { merge(state,i1,i2); merge each history var }
+//
+//	with (i1 \in Nodes; i2 \in {x \in Nodes : state[x] # state[i1]}) { merge(state,i1,i2); merge each history var }
+//
 // stateVar is merged with mergeState, every variable in unionVars by set union. All resources are plain.
 func mergerArchetype(name, stateVar string, unionVars []string, nodes func(distsys.ArchetypeInterface) tla.Value,
 	mergeState func(iface distsys.ArchetypeInterface, a, b tla.Value) (tla.Value, error)) distsys.MPCalArchetype {
